@@ -463,8 +463,54 @@ def facts(tree):
             r = latest_start(ch[i][0])
         memo_s[i] = r
         return r
+    # lower bound the lowering puts on a node's end time even when nothing is satisfied, and the
+    # upper bound it puts on a node's start time in that state (see the LessThan finding)
+    def const_indicator(i):
+        return tree.always_satisfied(i)
+
+    def forced_end(i):
+        nd = nodes[i]
+        t = nd["type"]
+        if t == "alloc":
+            return nd["start"] + nd["dur"]
+        if t in CHOOSELIKE or t == "max":
+            return 0
+        if t == "scale":
+            return forced_end(ch[i][0])
+        if t == "lessthan":
+            return forced_end(ch[i][1]) if tree.vartime_end(ch[i][1]) or const_indicator(ch[i][1]) else 0
+        if t == "min":
+            best = 0
+            for c in ch[i]:
+                if not tree.vartime_end(c):
+                    if const_indicator(c):
+                        best = max(best, tree.const_end(c))
+                else:
+                    best = max(best, forced_end(c))
+            return best
+        return 0
+
+    def start_cap(i):
+        nd = nodes[i]
+        t = nd["type"]
+        if t in ("choose", "alloc"):
+            return nd["start"]
+        if t == "wchoose":
+            o = tree.windowed_options(nd, False)
+            return min(o) if o else 0
+        if t == "mchoose":
+            return 0
+        if t == "max":
+            return min([start_cap(c) for c in ch[i] if tree.present(c)] or [0])
+        if t == "min":
+            return min(start_cap(c) for c in ch[i])
+        return start_cap(ch[i][0])
     live = tree.live()
     unsat_lt = False
+    for i in tree.reach:
+        if nodes[i]["type"] == "lessthan" and len(ch[i]) == 2 and all(tree.present(c) for c in ch[i]):
+            if forced_end(ch[i][0]) > start_cap(ch[i][1]):
+                unsat_lt = True
     for i in tree.reach:
         if nodes[i]["type"] == "lessthan" and len(ch[i]) == 2:
             if earliest_end(ch[i][0]) > latest_start(ch[i][1]):
@@ -475,6 +521,6 @@ def facts(tree):
             pres = [c for c in ch[i] if tree.present(c)]
             if len(pres) >= 2 and any(nodes[c]["type"] == "wchoose" for c in pres):
                 mixed = True
-    return {"unsatisfiable_lessthan": unsat_lt, "max_with_windowed_and_sibling": mixed,
+    return {"order_bound_unconditional": unsat_lt, "max_with_windowed_and_sibling": mixed,
             "has_malleable": any(nodes[i]["type"] == "mchoose" for i in tree.reach),
             "has_shared": any(sum(1 for p, c in tree.spec["edges"] if c == i) > 1 for i in tree.reach)}
